@@ -63,7 +63,7 @@ PROPS['C10'] = dict(
 
 DYN_FUNCS = ['new', 'add_release_for_all_unreleased_presses', 'lemma_closed', 'add_event', 'tick_record_state', 'tick_replay_state', 'begin_record_macro', 'record_press',
              'record_release', 'stop_macro', 'key_event', 'delay', 'as_u16', 'as_u16_linux', 'from',
-             'lemma_release_appended', 'lemma_all_released', 'replay_step_emits_head']
+             'lemma_release_appended', 'lemma_all_released', 'replay_step_emits_head', 'play_macro_nested']
 
 PROPS['C19'] = dict(
     level='proof',
@@ -141,8 +141,8 @@ PROPS['C06'] = dict(
     level_note='Trusted: rustc, Verus 0.2026.09.13 + Z3, assumed ArrayDeque/heapless contracts (cross-checked bounded by Kani on the real crates), Kani 0.68 + CBMC 6.11. Not decided: that every non-one-shot action calls handle_press(Other); the deferred release path through dequeue; stacking through Layout.',
     technique='function contracts discharged by Verus on mechanically extracted text (unbounded) + bounded Kani contract harnesses on the real crate (cross-check of the assumed container contracts, counterexample replay)',
     design_ref='DESIGN.md section 4, C06; 9.1b',
-    explanation='OneShotState::{handle_press, handle_release, tick_osh}: postconditions taken from the property statement (press variants end within the rapid-event delay; release variants end on the release of the first following key; pcancel on re-press of an active one-shot key; a held one-shot key acts as the plain key (its deferred release is forgotten on re-press); expiry exactly when the last millisecond elapses or an end was requested, and it clears everything so nothing later is affected; the 17th deferred release evicts the oldest instead of being lost). All three are proved UNBOUNDED by Verus (unit oneshot) against the assumed ArrayDeque(Wrapping)/heapless contract; the closure passed to retain() is annotated mechanically (R12: its ensures clause is generated from its own body text, so a changed predicate changes the spec it is checked with).',
-    verus=[dict(unit='oneshot')],
+    explanation='OneShotState::{handle_press, handle_release, tick_osh}: postconditions taken from the property statement (press variants end within the rapid-event delay; release variants end on the release of the first following key; pcancel on re-press of an active one-shot key; a held one-shot key acts as the plain key (its deferred release is forgotten on re-press); expiry exactly when the last millisecond elapses or an end was requested, and it clears everything so nothing later is affected; the 17th deferred release evicts the oldest instead of being lost). All three are proved UNBOUNDED by Verus (unit oneshot) against the assumed ArrayDeque(Wrapping)/heapless contract; the closure passed to retain() is annotated mechanically (R12: its ensures clause is generated from its own body text, so a changed predicate changes the spec it is checked with). do_action_one_shot (unit waiting; FRAGMENT: the OneShot arm of Layout::do_action): the inner action runs exactly once, flagged as a one-shot activation; then the key joins the active table (keys tapped in a row combine), the timeout restarts with this key\'s value, its end variant governs; with 16 already active the oldest is released through Layout::event, not dropped. handle_press is an assumed stub there (proved in unit oneshot).',
+    verus=[dict(unit='oneshot'), dict(unit='waiting', only=['do_action_one_shot'])],
     kani=[
         H('keyberon', 'layout', 'c06_b_press_other', kind='bounded', bound='each table <= 3 coordinates', functions=[L + 'OneShotState::handle_press']),
         H('keyberon', 'layout', 'c06_b_press_oneshot_key', kind='bounded', bound='each table <= 3 coordinates'),
@@ -153,7 +153,7 @@ PROPS['C06'] = dict(
         H('keyberon', 'layout', 'c06_b_press_other_neg', kind='bounded', expect='fail', covers='must-fail twin'),
     ],
     assumptions=[
-        'call sites in Layout::do_action (handle_press(Other) on every non-one-shot action) and Layout::dequeue are NOT under contract',
+        'call sites: the OneShot arm of Layout::do_action is under contract as a fragment (unit waiting; do_action / Layout::event stubbed with ghost logs); handle_press(Other) on every non-one-shot action and the deferred release in Layout::dequeue are NOT under contract',
         'Verus: arraydeque::ArrayDeque<_, N, Wrapping>::{new,is_empty,contains,push_back,iter,extend,clear,drain(..),retain} and heapless::Vec FromIterator, core::cmp::min/max at u16: ASSUMED contracts in contracts/oneshot.spec.rs (retain: predicate called once per element front to back; extend/push_back on a full deque keep the newest N; a deque never exceeds N)',
         'Kani: tables with more than 3 entries are covered only by the overflow harness (bounded cross-check; the real arraydeque 0.5.1 / heapless 0.7 are compiled and symbolically executed there, not assumed)',
     ],
@@ -164,13 +164,14 @@ PROPS['C05'] = dict(
     level='other',
     level_text=('Bounded contract check (Kani/CBMC) of the tap-hold decision on the real crate: WaitingState::handle_hold_tap and tick_wt (HoldTap arm) '
                 'against the decision table of the property statement for the three built-in variants, every clock value, and every queue of <= 4 '
-                'events over 3 keys; plus "fires exactly at the H-th tick" for H <= 6. Bounded stand-in; the execution of the decision '
-                '(waiting_into_*, replay of buffered keys) is not under contract.'),
-    level_note='Trusted: rustc, Kani + CBMC. Not decided: waiting_into_hold/tap/timeout consume the state once and replay buffered keys in order; repress window; extra_waiting.',
-    technique='contract harnesses (Kani/CBMC): symbolic waiting state + symbolic bounded queue, decision oracle from the statement, frame, must-fail twin',
+                'events over 3 keys; plus "fires exactly at the H-th tick" for H <= 6 (bounded stand-in, not a proof). The EXECUTION of the decision is '
+                'proved unbounded by Verus (unit waiting, text cut from layout.rs): Layout::waiting_into_hold / _tap / _timeout / drop_waiting run exactly the '
+                'chosen action, once, at the key\'s coordinate, with delay + ticks, after removing exactly that waiting key; do_action itself is a stub that logs its calls.'),
+    level_note='Trusted: rustc, Kani + CBMC, Verus + Z3. Not decided: Layout::do_action (what the chosen action then does), replay order of buffered keys in Layout::tick, repress window, which index tick passes.',
+    technique='contract harnesses (Kani/CBMC) for the decision: symbolic waiting state + symbolic bounded queue, decision oracle from the statement, frame, must-fail twin; Verus contracts (unbounded) on the extracted waiting_into_* methods with a ghost call log for the execution',
     design_ref='DESIGN.md section 4, C05',
-    explanation='handle_hold_tap: at most one of Tap/Hold/Timeout, never NoOp; Tap iff own release queued before the timeout elapsed; Timeout exactly when it elapses; early Hold on other press (press variant) / other press+release (release variant); queue and clock untouched.',
-    verus=[],
+    explanation='handle_hold_tap: at most one of Tap/Hold/Timeout, never NoOp; Tap iff own release queued before the timeout elapsed; Timeout exactly when it elapses; early Hold on other press (press variant) / other press+release (release variant); queue and clock untouched. waiting_into_hold/_timeout: verif_calls == old.push(decision_call(w, w.hold / w.timeout_action, ..)) - exactly one call, the right action, coordinate and delay, waiting key consumed (for extra_waiting: exactly the idx-th removed); waiting_into_tap: that call first, then only the C09 repeats; drop_waiting: no call. do_action_hold_tap (FRAGMENT: the HoldTap arm of Layout::do_action): an ordinary press creates exactly one pending decision carrying this key\'s hold / tap / timeout actions, timeout (reduced by the queueing delay in quick mode), delay, ticks 0, in the primary slot if free else as one more concurrent one, arms the tap-repress window, and runs NO action; a re-press of the same key inside the window creates no decision and runs the tap action exactly once.',
+    verus=[dict(unit='waiting', only=['waiting_into_hold', 'waiting_into_tap', 'waiting_into_timeout', 'drop_waiting', 'do_action_hold_tap', 'update_coord', 'update', 'lemma_sigs_push'])],
     kani=[
         H('keyberon', 'layout', 'c05_b_handle_hold_tap', kind='bounded', bound='queue <= 4 events over 3 keys', functions=[L + 'WaitingState::handle_hold_tap']),
         H('keyberon', 'layout', 'c05_b_tick_wt_hold_tap', kind='bounded', bound='queue <= 4 events over 3 keys', functions=[L + 'WaitingState::tick_wt (HoldTap arm)']),
@@ -183,7 +184,9 @@ PROPS['C05'] = dict(
     ],
     assumptions=[
         'custom closures: Allocations::{sref, bref_slice} (leak-tracking behind a parking_lot mutex) are STUBBED by plain Box::leak in the harness (kani::stub); the closures themselves are the real code',
-        'decision only: waiting_into_hold / waiting_into_tap / waiting_into_timeout and the replay of buffered keys run Layout::do_action and are NOT under contract',
+        'Verus unit waiting: Layout is sliced (R7) to waiting, extra_waiting, oneshot, last_press_tracker + a ghost call log; Layout::do_action is a STUB (appends one log record, may change every field); ArrayDeque::{get, remove}, heapless::Vec::clone ASSUMED; the layer-stack iterator argument of do_action is abstracted (R5); `pq.iter().copied()[.skip(n)]` -> assumed-equivalent helper (R16)',
+        'u16 arithmetic: `w.delay + w.ticks` is a PRECONDITION (<= 65535) of the three waiting_into_* contracts; it is not established by any caller under contract (ticks <= the configured timeout, delay = time the press spent queued; overflow needs a timeout near 65535 ms plus queueing delay and panics only with overflow checks on)',
+        'the replay of buffered keys (Layout::tick / dequeue) and what do_action does with the chosen action are NOT under contract',
         'queues longer than 4 events are not explored',
     ],
     trusted_base=['rustc', 'Kani 0.68.0 / CBMC 6.11.0 / CaDiCaL'],
@@ -226,15 +229,15 @@ PROPS['C17'] = dict(
     level_note='Trusted: rustc, Kani + CBMC. Not decided: the eager path in Layout::dequeue; that the interrupting key is processed after the chosen action (Layout::waiting_into_tap).',
     technique='contract harnesses (Kani/CBMC): symbolic waiting state + bounded symbolic queue, counting oracle from the statement, queue frame',
     design_ref='DESIGN.md section 4, C17',
-    explanation='handle_tap_dance / tick_wt(TapDance) / TapDanceEagerState::{tick_tde,is_expired,set_expired,incr_taps}.',
-    verus=[],
+    explanation='handle_tap_dance / tick_wt(TapDance) / TapDanceEagerState::{tick_tde,is_expired,set_expired,incr_taps}. Execution of the chosen action "exactly once": Verus unit waiting (shared with C05), waiting_into_tap with a TapDance config runs w.tap exactly once at the key coordinate with delay 0. do_action_tap_dance (FRAGMENT: the TapDance arm of Layout::do_action): the lazy form creates the pending count at ONE tap with the whole action list and timeout and runs nothing; the eager form runs the first listed action exactly once, now, under a counter that is fresh unless this key\'s counter is already running.',
+    verus=[dict(unit='waiting', only=['waiting_into_tap', 'do_action_tap_dance', 'lemma_sigs_push'])],
     kani=[
         H('keyberon', 'layout', 'c17_b_handle_tap_dance', kind='bounded', bound='queue <= 4 events over 3 keys, lists 1..=4', functions=[L + 'WaitingState::handle_tap_dance']),
         H('keyberon', 'layout', 'c17_b_tick_wt_tap_dance', kind='bounded', bound='queue <= 4 events over 3 keys, lists 1..=4', functions=[L + 'WaitingState::tick_wt (TapDance arm)']),
         H('keyberon', 'layout', 'c17_k_eager_state', kind='complete', functions=[L + 'TapDanceEagerState::{tick_tde,is_expired,set_expired,incr_taps}']),
         H('keyberon', 'layout', 'c17_b_handle_tap_dance_neg', kind='bounded', expect='fail', covers='must-fail twin'),
     ],
-    assumptions=['eager path in Layout::dequeue and the ordering "interrupting key after the chosen action" (waiting_into_tap) are NOT under contract',
+    assumptions=['eager path in Layout::dequeue and the ordering "interrupting key after the chosen action" (Layout::tick) are NOT under contract; waiting_into_tap is (Verus unit waiting: do_action stubbed, see C05)',
                  'queues longer than 4 events are not explored'],
     trusted_base=['rustc', 'Kani 0.68.0 / CBMC 6.11.0 / CaDiCaL'],
 )
@@ -247,11 +250,11 @@ PROPS['C09'] = dict(
                 'sets and tables of <= 3 chords (exact-set match; unambiguous iff no strict superset is defined). v2: get_active_chord (release rule), '
                 'drain_releases (participant release bookkeeping, non-participants change nothing, releases forwarded iff no press pending), '
                 'get_action_chv2 (each chord handed out once), next_coord in 851..=900 (complete).'),
-    level_note='Trusted: rustc, Kani + CBMC. Not decided: WaitingState::handle_chord accumulation and decomposition, ChordsV2::process_presses (reads an FxHashMap), the re-issue of the v1 action on every participant in waiting_into_tap.',
+    level_note='Trusted: rustc, Kani + CBMC. Not decided: WaitingState::handle_chord accumulation and decomposition, ChordsV2::process_presses (reads an FxHashMap), what handle_chord puts into the pressed queue.',
     technique='contract harnesses (Kani/CBMC): symbolic tables / queues within stated bounds, set-theoretic oracles from the statement',
     design_ref='DESIGN.md section 4, C09',
-    explanation='chord tables (v1) and chord release tracking (v2).',
-    verus=[],
+    explanation='chord tables (v1) and chord release tracking (v2); v1 "action repeated on every participating coordinate": Verus unit waiting (shared with C05): after the tap action ran at the chord coordinate, waiting_into_tap performs each simple action (key / output chord / one-shot / layer, also as members of a multi) once on every coordinate of the pressed queue, in order, and nothing else (spec fn repeats).',
+    verus=[dict(unit='waiting', only=['waiting_into_tap', 'lemma_sigs_push'])],
     kani=[
         H('keyberon', 'action', 'c09_b_get_chord', kind='bounded', bound='<= 3 chords, 128-bit sets symbolic', functions=[A + 'ChordsGroup::get_chord']),
         H('keyberon', 'action', 'c09_b_get_chord_if_unambiguous', kind='bounded', bound='<= 3 chords', functions=[A + 'ChordsGroup::get_chord_if_unambiguous']),
@@ -307,7 +310,7 @@ PROPS['C02'] = dict(
     technique='contract-based: Verus (overflow/bounds/unwrap/assert sites as obligations) + Kani default checks on the harnesses of C03 C05 C06 C09 C10 C11 C17',
     design_ref='DESIGN.md section 4, C02',
     explanation='union of panic-freedom obligations of every function under contract; the quick tier leaves out only the harnesses that are thorough-tier in their own property and the full-domain key table harness',
-    verus=[dict(unit='dynmacro', only=DYN_FUNCS), dict(unit='switch'), dict(unit='oneshot')],
+    verus=[dict(unit='dynmacro', only=DYN_FUNCS), dict(unit='switch'), dict(unit='oneshot'), dict(unit='waiting')],
     kani=_c02_kani(),
     assumptions=[
         'NOT covered: Layout::{tick, do_action, event, resolve_coord, process_sequences}, ChordsV2::process_presses, every Kanata method, the parser',
@@ -372,3 +375,4 @@ THOROUGH_BOUNDS = {
                   ('const WQ_N: usize = 4;', 'const WQ_N: usize = 5;')],
 }
 THOROUGH_NOTE = 'one-shot tables <= 4 coordinates, event queue <= 5 events'
+
